@@ -91,7 +91,7 @@ PIPE_FUNCS = ["pyjelly/serialize/encode.py:*", "pyjelly/serialize/lookup.py:*", 
 @prop("C01", functions=PIPE_FUNCS + TAB_FUNCS,
       bounds={"quick": {"statements": 2, "frame_size": "symbolic, every integer >= 1", "physical": "TRIPLES, QUADS, GRAPHS", "tables": "(8,3|4,2) delimited, (9,0,2) non-delimited",
                         "alphabet": "reduced class alphabet (vpkg/alpha.py gS3,gP,gO5,gG3), statement 1 from 4 spines"},
-              "thorough": {"statements": "2 with the full class alphabet; 3 (spine, one of six fixed shapes, symbolic third) with the reduced alphabet", "frame_size": "symbolic, every integer >= 1", "tables": "(8,8,8),(8,3|4,2),(9,0,2)"}},
+              "thorough": {"statements": "2 with the full class alphabet; 3 (spine, one of three fixed shapes, symbolic third) with the reduced alphabet", "frame_size": "symbolic, every integer >= 1", "tables": "(8,8,8),(8,3|4,2),(9,0,2)"}},
       outside="more than 2 statements end-to-end (covered per table by the inductive lemmas of C05), strings outside the alphabets (T5), name-table evictions end-to-end",
       explanation="H-PIPE-GEN: real generic serializer entry points -> bytes -> real generic parser, list equality; plus L-SPLIT on a symbolic string")
 def c01(tier):
@@ -103,7 +103,7 @@ def c01(tier):
         # three statements end to end: statement 1 = spine, statement 2 = one of six fixed shapes, statement 3 symbolic
         from vpkg import alpha as _a
         alph = ["gS3", "gP", "gO5", "gG3"]
-        mids = [[0, 0, 0], [1, 1, 2], [2, 2, 4], [0, 3, 6], [1, 0, 3], [2, 1, 5]]
+        mids = [[0, 0, 0], [1, 1, 2], [2, 3, 6]]
         for phys in (1, 2):
             for spi in range(len(_a.SPINES[phys])):
                 for mid in mids:
